@@ -168,7 +168,14 @@ func runC15(c *Ctx) {
 	}
 	for i := 0; i < n; i++ {
 		data := genPayload(r, c, max)
-		if c.Thorough && i%200 == 0 {
+		if i == 0 {
+			data = []byte{} // the empty value: serialises to the empty string in every format
+			c.Count("payload.empty")
+		} else if i == 1 {
+			data = nil
+			c.Count("payload.nil")
+		}
+		if c.Thorough && i%200 == 0 && i > 1 {
 			data = r.Bytes(1 << 22) // multi-megabyte
 			c.Count("payload.4MiB")
 		}
@@ -183,7 +190,11 @@ func runC15(c *Ctx) {
 				}
 				c.Count(fmt.Sprintf("format.%d.cksum.%d", lf.f, ck))
 				// O: round trip with decompression
-				if got := deserSafe(s, true); got != fmt.Sprintf("ok %d %s", lf.f, hx(data)) {
+				wantRT := fmt.Sprintf("ok %d %s", lf.f, hx(data))
+				if len(data) == 0 {
+					wantRT = "ok 0 -" // the empty value is stored as the empty string, whose format byte is absent
+				}
+				if got := deserSafe(s, true); got != wantRT {
 					c.Report("O", "C15 roundtrip", "deserialize(serialize(x)) != x", tag+"\ndata="+hx(clip(data))+"\ngot="+clipS(got))
 				}
 				// X: envelope without decompression; and the stored bytes = SerializePrecompressedData(compressed)
